@@ -121,6 +121,12 @@ def build(d: Path, scn, out_name="out.nc", record_output=True, record_ibm=False,
         jj_, ii_ = np.mgrid[0:g["jm"], 0:g["im"]].astype(float)
         G["pm"] = 1.0 / (DX * (0.8 + 0.04 * ii_ + 0.15 * np.sin(0.9 * jj_ + g["seed"] % 7)))
         G["pn"] = 1.0 / (DX * (0.9 + 0.03 * jj_ + 0.15 * np.cos(0.7 * ii_ + g["seed"] % 5)))
+    if g.get("curved"):
+        # curvilinear coordinates: longitude / latitude are not linear in the grid indices, so the inverse
+        # (lon, lat) -> (X, Y) takes a different number of solver iterations in different parts of the grid
+        jc_, ic_ = np.mgrid[0:g["jm"], 0:g["im"]].astype(float)
+        G["lon"] = 2.0 + 0.02 * ic_ + 0.003 * jc_ + 0.001 * ic_ * jc_ + 0.002 * ic_ ** 2
+        G["lat"] = 58.0 + 0.01 * jc_ - 0.002 * ic_ + 0.001 * jc_ ** 2
     tm = scn["time"]
     rev = tm["reverse"]
     sgn = -1 if rev else 1
@@ -186,6 +192,8 @@ def build(d: Path, scn, out_name="out.nc", record_output=True, record_ibm=False,
         cols.append("kind")
     if rel.get("active_col"):
         cols.append("active")   # the state's own flag given per release row as 0 / 1
+    if rel.get("by_lonlat"):
+        cols[1:3] = ["lon", "lat"]   # positions given by longitude / latitude (converted by the model)
     placed = []
     first_step = min((r["step"] for r in rel["rows"]), default=0)
     for r in rel["rows"]:
@@ -201,6 +209,12 @@ def build(d: Path, scn, out_name="out.nc", record_output=True, record_ibm=False,
         z = r["zf"] * float(G["h"][j, i])
         t = start + scen.S(sgn * r["step"] * DT)
         row = [e2e.iso(t), repr(float(x)), repr(float(y)), repr(float(z)), r["mult"], r["tag"]]
+        if rel.get("by_lonlat"):
+            i_, j_ = min(int(x), g["im"] - 2), min(int(y), g["jm"] - 2)
+            p_, q_ = x - i_, y - j_
+            for n_, F_ in ((1, G["lon"]), (2, G["lat"])):
+                row[n_] = repr(float((1 - p_) * (1 - q_) * F_[j_, i_] + p_ * (1 - q_) * F_[j_, i_ + 1]
+                                     + (1 - p_) * q_ * F_[j_ + 1, i_] + p_ * q_ * F_[j_ + 1, i_ + 1]))
         if "X0" in pv:
             row.append(repr(float(x)))
         if "kind" in pv:
@@ -227,6 +241,8 @@ def build(d: Path, scn, out_name="out.nc", record_output=True, record_ibm=False,
         # positions stored packed (the way examples/killer/dense.yaml stores X): precision = scale_factor / 2
         for v in ("X", "Y"):
             conf["output"]["instance_variables"][v] = e2e.outvar("i4", scale_factor=float(o["pack_xy"]))
+    if o.get("active_out"):
+        conf["output"]["instance_variables"]["active"] = e2e.outvar("i1")   # the state's flag as 0 / 1 bytes
     if o.get("pack_age"):
         # a packed output variable (integer on file, scale_factor / add_offset attributes); age counts whole steps,
         # so the packing is lossless
